@@ -2,6 +2,7 @@ CONSTANT N = 2
 CONSTANT Universe <- USmall
 CONSTANT MaxSteps = 4
 CONSTANT Thresholds = {0, 100}
+CONSTANT MaxBatch = 1
 CONSTANT FeedModes = {FALSE}
 SPECIFICATION Spec
 INVARIANT BehaviourExport
